@@ -349,7 +349,16 @@ impl C14 {
                         }
                     };
                     // (exit is another handler's business when the Exit handler was installed alongside)
-                    let nr = if install <= 1 { *rng.pick(&[0u64, 1, 0, 1, 39, 3, 3]) } else { *rng.pick(&[0u64, 1, 0, 1, 39, 60, 3]) };
+                    // numbers that are NOT read/write/pipe/exit/brk but equal one of them in their low 16 or 32 bits
+                    // belong to nobody built in: they reach the later hook whatever the descriptor is
+                    let nr = if rng.below(5) == 0 {
+                        *rng.pick(&[0x1_003cu64, 0x7_003c, 0xdead_0000_0000_003c, 0x1_0016, 0x1_0000_0016, 0x1_0000, 0x1_0001, 0x1_0000_0001, 0x1_0000_0000, 0x1_000c, 0x1_0000_000c])
+                    } else if install <= 1 {
+                        *rng.pick(&[0u64, 1, 0, 1, 39, 3, 3])
+                    } else {
+                        *rng.pick(&[0u64, 1, 0, 1, 39, 60, 3])
+                    };
+                    let fd = if nr > 0xffff && rng.below(2) == 0 && !pipes.is_empty() { pipes[rng.below(pipes.len() as u64) as usize].rd } else { fd };
                     let before = PROBE_LOG.with(|l| l.borrow().len());
                     let r = sys(&mut ax, nr, fd, BUF_AT + 0x100, 8);
                     col.eval(1);
